@@ -560,4 +560,89 @@ def Writer.passes (c : Ctxs) : Writer → Bool
 def Writer.write (c : Ctxs) (w : Writer) (p : List UInt8) (sinkBefore : List UInt8) : List UInt8 × Nat :=
   if w.passes c then (sinkBefore ++ p, p.length) else (sinkBefore, 0)
 
+
+/-! ## §7 an evaluation blocked in a call on its input
+
+  pkg/interp/binary.go:249-270 wraps every input `open` opens in `internal/ctxreadseeker` bound to
+  the context of the evaluation doing it (`i.EvalInstance.Ctx`). `callWait`
+  (ctxreadseeker.go:47-62) returns `ctx.Err()` at once if the context is done, otherwise hands the
+  call to the worker goroutine and waits for `ctx.Done()` or the result — so a Read/Seek/Close that
+  is blocked in the underlying file has exactly two exits: the underlying call returns (data
+  arrives) or the context is cancelled. A reader used without the wrapper (`ReaderKind.plain`)
+  has only the first. While it is blocked the evaluator thread performs no stack operation;
+  interrupts (the goroutine) and data (the environment) can still happen. -/
+
+inductive ReaderKind
+  /-- `ctxreadseeker.New(ctx, rs)` -/
+  | ctxAware
+  /-- `rs` itself -/
+  | plain
+deriving Repr, DecidableEq
+
+structure Blocked where
+  ctx : Nat
+  kind : ReaderKind
+deriving Repr, DecidableEq
+
+inductive ReadResult | data | cancelled
+deriving Repr, DecidableEq
+
+structure RSt where
+  st : St
+  blocked : Option Blocked
+  /-- how the calls that came back so far ended, oldest first -/
+  results : List ReadResult
+deriving Repr, DecidableEq
+
+def RSt.init : RSt := ⟨.init, none, []⟩
+
+inductive ROp
+  /-- a stack operation of the evaluator, or an interrupt -/
+  | ev (o : Op)
+  /-- the evaluator calls Read/Seek/Close on a reader of this kind bound to context `ctx`, and the
+      underlying call blocks -/
+  | read (kind : ReaderKind) (ctx : Nat)
+  /-- the underlying call returns -/
+  | data
+deriving Repr, DecidableEq
+
+/-- the context of the innermost evaluation on the stack: the one that is executing -/
+def top (s : St) : Option Nat :=
+  if s.cancelFns.len > 0 then
+    match s.cancelFns.index (s.cancelFns.len - 1) with
+    | some (some f) => some f
+    | _ => none
+  else none
+
+/-- `select { case <-r.ctx.Done(): return r.ctx.Err() … }` (ctxreadseeker.go:49-50, 54-55) -/
+def wake (s : RSt) : RSt :=
+  match s.blocked with
+  | some b =>
+    if b.kind = .ctxAware ∧ s.st.ctxs.err b.ctx = true then
+      { s with blocked := none, results := s.results ++ [.cancelled] }
+    else s
+  | none => s
+
+def rstep (s : RSt) : ROp → RSt
+  | .read k c =>
+    match s.blocked with
+    | some _ => s                                            -- stuck in the earlier call
+    | none => if c < s.st.ctxs.size then wake { s with blocked := some ⟨c, k⟩ } else s
+  | .data =>
+    match s.blocked with
+    | some _ => { s with blocked := none, results := s.results ++ [.data] }
+    | none => s
+  | .ev .interrupt => wake { s with st := step .fixed s.st .interrupt }
+  | .ev o =>
+    match s.blocked with
+    | some _ => s                                            -- the evaluator is not running
+    | none => { s with st := step .fixed s.st o }
+
+def rrun (ops : List ROp) : RSt := ops.foldl rstep .init
+
+/-- observation after every operation: the stack machine's, and whether a call is blocked -/
+def rtrace : RSt → List ROp → List (Obs × Bool)
+  | _, [] => []
+  | s, op :: ops => let s' := rstep s op; (s'.st.obs, s'.blocked.isSome) :: rtrace s' ops
+
 end FqModel.CtxStack
